@@ -63,11 +63,13 @@ N_REMOVE = {'quick': 40, 'thorough': 400}
 N_OUTSIDE = {'quick': 16, 'thorough': 100}
 N_NONCONTIG = {'quick': 20, 'thorough': 150}
 N_DIRECTED_OUTSIDE = 4
+N_DIRECTED_HUGEID = 3
 
 RTOL, ATOL = 1e-9, 1e-11
 # operators the engine refuses (or warns about) when derivatives are requested
 NONDIFF = {'belongs', 'and', 'or', 'eq', 'ne', 'le', 'ge', 'lt', 'gt', 'min', 'max'}
 KNOWN_OUTSIDE = 'row-variable-outside-trajectory-accepted-result-depends-on-row-order'
+KNOWN_HUGEID = 'valid-panel-table-refused-integer-ids-beyond-2p53-merged-by-float-comparison'
 
 
 def cases(seed, tier):
@@ -85,6 +87,8 @@ def cases(seed, tier):
     # directed, the same at every run whatever the seed (reproduce recorded findings deterministically)
     for i in range(N_DIRECTED_OUTSIDE):
         out.append({'seed': 'directed', 'i': i, 'mode': 'outside', 'tier': 'quick'})
+    for i in range(N_DIRECTED_HUGEID):
+        out.append({'seed': 'directed', 'i': i, 'mode': 'hugeid', 'tier': 'quick'})
     return out
 
 
@@ -204,7 +208,12 @@ def _database(cx, which, genlog):
             cx.rec.c('noncontiguous_table_refused')
             mon.drain()
             return None, tab, 'refused'
-        cx.viol('valid-panel-table-refused', f'table {which}: panel() raised BiogemeError on a table whose blocks are contiguous: {e}',
+        ids = spec['ids']
+        merged = all(isinstance(v, int) for v in ids) and len({float(v) for v in ids}) < len(ids)
+        cx.rec.c('valid_table_refused')
+        cx.viol(KNOWN_HUGEID if merged else 'valid-panel-table-refused',
+                f'table {which}: panel() raised BiogemeError on a table whose blocks are contiguous'
+                + (' (integer ids beyond 2^53, some pairwise equal once converted to float64)' if merged else '') + f': {e}',
                 table=tab)
         return None, tab, 'error'
     except BaseException as e:  # noqa
